@@ -312,7 +312,8 @@ func c02DispatchTable(p *Prog, fi *FuncInfo, readers ...string) ([]dispatchRow, 
 				}
 				switch x := e.(type) {
 				case *ast.UnaryExpr:
-					if x.Op == token.AND && strings.HasSuffix(types.ExprString(x.X), "."+allStoreField) {
+					if x.Op == token.AND && (strings.HasSuffix(types.ExprString(x.X), "."+allStoreField) ||
+						(allStoreEmbedded != "" && strings.HasSuffix(types.ExprString(x.X), "."+allStoreField+"."+allStoreEmbedded))) {
 						return &Val{Tag: "all-store"}, true
 					}
 				case *ast.CallExpr:
